@@ -1,5 +1,7 @@
 import argparse
 import importlib
+import subprocess
+import z3
 import json
 import os
 import sys
@@ -31,7 +33,15 @@ def main():
     try:
         if os.environ.get('PYVC_FORCE_FALLBACK'):       # development aid: exercise the bounded stand-in path
             raise EngineError('forced by PYVC_FORCE_FALLBACK')
-        mod.build(sess)
+        try:
+            mod.build(sess)
+        except EngineError:
+            raise
+        except (KeyError, AttributeError, TypeError, IndexError, ValueError, AssertionError, z3.Z3Exception) as e:
+            # a sidecar contract / loop invariant refers to a variable, field or shape the (changed) code no longer has: that is a
+            # limit of the machinery, not a verdict about the code -- continue with the bounded stand-in
+            traceback.print_exc()
+            raise EngineError(f'the sidecar contract does not fit the shape of the code any more ({type(e).__name__}: {e})') from e
         diff_bad = []
         if args.tier == 'thorough' or os.environ.get('PYVC_DIFF'):
             from . import difftest
@@ -42,6 +52,11 @@ def main():
                 print(f"CHECKER-ERROR engine-vs-CPython disagreement: {b['function']}{b['args']}: engine {b['engine']} / CPython {b['native']}")
             if code == EXIT_OK:
                 code = EXIT_CHECKER
+    except (RuntimeError, subprocess.TimeoutExpired) as e:
+        # the native harness (oracles / bounded supplements running the real code) crashed or hung: no verdict about the property
+        traceback.print_exc()
+        print(f'CHECKER-ERROR property={prop} native harness failure: {str(e)[-600:]}')
+        sys.exit(EXIT_CHECKER)
     except EngineError as e:
         # the (changed) code is outside the executor's subset: a bounded native check of the same contract stands in,
         # labelled bounded; it can only confirm a violation with a concrete input or report that it found none
